@@ -303,7 +303,9 @@ def random_cases(rng, tier):
         if tags and rng.random() < 0.5:           # force repeats
             tags[rng.randrange(lt)] = tags[0]
         scs = [[rng.randrange(0, 5) for _ in tags] for _ in range(2)]
-        keep = [j for j, u in enumerate(tags) if u in vocab]     # re-derived and checked by Encoding!Filtered in TLC
+        cls_of = lambda u: (_TERM_REP[_UTAG[u - 1][0] - 1], _UTAG[u - 1][1])          # equal universe tags, one class
+        in_vocab = {cls_of(u) for u in vocab}
+        keep = [j for j, u in enumerate(tags) if cls_of(u) in in_vocab]     # re-derived and checked by Encoding!Filtered in TLC
         vp, qp = rng.choice([("fresh", "fresh"), ("fresh", "explicit_defaults"), ("explicit_defaults", "fresh"),
                              ("extras_ab", "extras_ba"), ("extras_ba", "extras_ab"), ("extras_ab", "extras_ab")])
         yield {"kind": "enc", "vocab": vocab, "tags": tags, "scs": scs, "vprov": vp, "qprov": qp,
